@@ -442,13 +442,30 @@ def r01d(ck, prog):
                          prog.config)
 
 
+def r01e(ck, prog):
+    """gaps[] has len+1 meaningful slots: every loop over it includes slot len (shared with R04b)"""
+    from . import c04
+    from ..report import Check
+    sub = Check(ck.prop, ck.tier, ck.seed)
+    sub.known = {}
+    c04.r04b(sub, prog)
+    for i in sub.instances:
+        if "gaps loop" in i["site"] or "gap total" in i["site"]:
+            ck.inst("R01e", i["site"], i["what"], i["config"])
+    for v in sub.violations:
+        if "gap-span" in v["key"] or "coverage" in v["key"]:
+            ck.violation("R01e", v["key"].replace("R04b", "R01e"), v["site"], v["msg"], v["config"])
+
+
 def run(ck, progs):
     describe(ck)
+    ck.rule("R01e", "every loop over msa_seq.gaps covers all len+1 slots (row length = len + sum of gaps[0..len])")
     for cfg, prog in progs.items():
         r01a(ck, prog)
         r01b(ck, prog)
         r01c(ck, prog)
         r01d(ck, prog)
+        r01e(ck, prog)
     return ("CFG must-pass-through / precedence for the six pipeline stages of kalign_run and the three of kalign(); "
             "who-may-read/write table for msa_seq.rank over every function; provenance of every store into a row buffer "
             "and every residue print in the functions reachable from the exporters; status gate reachability and "
